@@ -718,11 +718,13 @@ func (obj *SparseInt32Matrix) JointIterator(b ConstMatrix) MatrixJointIterator {
 }
 func (obj *SparseInt32Matrix) ITERATOR() *SparseInt32MatrixIterator {
   r := SparseInt32MatrixIterator{*obj.values.ITERATOR(), obj}
+  r.skipOutside()
   return &r
 }
 func (obj *SparseInt32Matrix) ITERATOR_FROM(i, j int) *SparseInt32MatrixIterator {
   k := obj.index(i, j)
   r := SparseInt32MatrixIterator{*obj.values.ITERATOR_FROM(k), obj}
+  r.skipOutside()
   return &r
 }
 func (obj *SparseInt32Matrix) JOINT_ITERATOR(b ConstMatrix) *SparseInt32MatrixJointIterator {
@@ -743,6 +745,20 @@ type SparseInt32MatrixIterator struct {
 }
 func (obj *SparseInt32MatrixIterator) Index() (int, int) {
   return obj.m.ij(obj.SparseInt32VectorIterator.Index())
+}
+func (obj *SparseInt32MatrixIterator) Next() {
+  obj.SparseInt32VectorIterator.Next()
+  obj.skipOutside()
+}
+// the underlying vector also holds the entries of the parent matrix that lie
+// outside a sub-matrix view: skip them
+func (obj *SparseInt32MatrixIterator) skipOutside() {
+  for obj.SparseInt32VectorIterator.Ok() {
+    if i, j := obj.Index(); i >= 0 && i < obj.m.rows && j >= 0 && j < obj.m.cols {
+      return
+    }
+    obj.SparseInt32VectorIterator.Next()
+  }
 }
 func (obj *SparseInt32MatrixIterator) Clone() *SparseInt32MatrixIterator {
   return &SparseInt32MatrixIterator{*obj.SparseInt32VectorIterator.Clone(), obj.m}
